@@ -24,7 +24,7 @@ META = {
     "functions": ["Multiplication.multiply/_compute_copy_names/__divide_segment_and_connection_counts/__clone_segment_and_connections/_distribute_links/_select_distribute_end",
                   "Line.clone", "Connection.connect", "Link.__hash__", "Gfa.rm"],
     "bounds": "segment X (sequence, RC count from {0,1,7,50,99} (thorough; quick 7), edge count from {0,5,98}, custom tag) with a neighbourhood chosen from 11 shapes (incl. ID-tagged edges, textually identical parallel containments, two self-containments whose contents become equal after division) (1-3 links on R, links on both ends, parallel links, self link, hairpin, containments either way, names already ending in *2) x factor -1..4 x policy in {None, off, auto, equal, L, R} x copy names given or automatic; statement-derived expectations + reference-graph invariant + neighbourhood oracle",
-    "timeout": {"quick": 400, "thorough": 1200}, "parts": {"quick": 16, "thorough": 16}},
+    "timeout": {"quick": 400, "thorough": 900}, "parts": {"quick": 16, "thorough": 16}},
  },
 }
 
